@@ -155,6 +155,13 @@ def editRest (s : State) (n : String) (comps : List String) (image : Option Stri
   | .ok (s1, r) =>
     .ok (setLoaded s1 n (withRest r comps image oload ofast) s1.uni)
 
+/-- an edit of `layer[n]` that no layer-level query can see (width, note, lib, …): the glyph is
+loaded and becomes dirty -/
+def touch (s : State) (n : String) : Except Err State :=
+  match getItem s n with
+  | .error e => .error e
+  | .ok (s1, r) => .ok (setLoaded s1 n r s1.uni)
+
 /-- `layer[old].name = new` (`Glyph._set_name` guard, then `Layer._glyphNameChange`) -/
 def rename (s : State) (old new : String) : Except Err State :=
   match getItem s old with
@@ -223,6 +230,7 @@ inductive Op where
   | edit (n : String) (comps : List String) (image : Option String) (oload ofast : Bool)
   | save
   | touchUni
+  | touch (n : String)
 deriving Repr
 
 def step (s : State) : Op → Except Err State
@@ -235,6 +243,7 @@ def step (s : State) : Op → Except Err State
   | .edit n c i oload ofast => editRest s n c i oload ofast
   | .save => .ok (save s)
   | .touchUni => .ok (touchUni s)
+  | .touch n => touch s n
 
 /-- a failing operation raises before it changes anything the queries can see; the model keeps
 the pre-state (the implementation may have loaded a glyph on the way) -/
